@@ -1,5 +1,6 @@
 import Mkdb.Proofs.Unchanged
 import Mkdb.Proofs.SpecRefine
+import Mkdb.Proofs.SpecRefineB
 /-!
 # C14 — a statement that returns an error changes nothing
 
@@ -141,5 +142,68 @@ theorem C14_insert_kth_row_plain_model (db : Engine.DB) (pt sch : Levels) (tbls 
       Abs db'.store ptF sch (setTable tbls table t')
         (sdb.map (updRows table (fun r => r ++ idRows db.store.hdr.lastKey goodRows))) :=
   evalInsert_kth_refused_spec db pt sch tbls sdb h table t ht schema hsch cols good bad rest goodRows hvalid hgood hbad hrun
+
+end Mkdb.Store
+
+namespace Mkdb.Store
+open Mkdb.Tree Mkdb.Page Mkdb.Tuple Mkdb.Generated
+
+/-- **C14.refused_statement_plain_model** (one theorem over parsed statements, against the plain
+in-memory model): `StmtRefusal` lists the refusals that happen before anything is changed - CREATE
+TABLE of an existing or catalog name or with a column length beyond 32 bits; INSERT into an unknown
+table or whose first row is refused (column count, unknown column, type, range, size); UPDATE with a
+column source, of an unknown table, with a WHERE that cannot be evaluated, or whose first selected row
+cannot be rewritten; DELETE of an unknown table or with a WHERE that cannot be evaluated.  The plain
+model refuses, the engine model returns an error, the log is untouched and the relation `Rel` holds
+with the SAME catalog trees and the SAME plain database: every table and the catalog contain what
+they contained, and since recovery reads only the file and the log, so they do after a restart. -/
+theorem C14_refused_statement_plain_model (db : Engine.DB) (order : List Nat) (pt sch : Levels)
+    (tbls : List (Bytes × Levels)) (sdb : Spec.SDB) (h : Rel db pt sch tbls sdb) (st : Sql.Stmt)
+    (hbad : StmtRefusal sdb pt st) :
+    Spec.specStmt sdb st = none ∧
+    ∃ e db', evalStmt db order st = .err e db' ∧ db'.wal = db.wal ∧ Rel db' pt sch tbls sdb :=
+  evalStmt_refused_spec db order pt sch tbls sdb h st hbad
+
+/-- **C14.delete_refused_plain_model**: the DELETE case with the stronger conclusion `Same` - no page
+and no header field differs, not only the abstraction. -/
+theorem C14_delete_refused_plain_model (db : Engine.DB) (pt sch : Levels) (tbls : List (Bytes × Levels))
+    (sdb : Spec.SDB) (h : AbsV db.store pt sch tbls sdb) (table : Bytes) (w : Option Sql.Cond)
+    (hname : Spec.findTable sdb table = none → table ≠ sysPages ∧ table ≠ sysSchema)
+    (hbad : Spec.specDelete sdb table w = none) :
+    ∃ e db', Engine.evalDelete db table w = .err e db' ∧ PreErr e ∧
+      (Spec.findTable sdb table = none → e = .store .tableNotExist) ∧
+      ((Spec.findTable sdb table).isSome → ∃ x, e = .exec x) ∧
+      db'.wal = db.wal ∧ Same db.store db'.store ∧ AbsV db'.store pt sch tbls sdb :=
+  evalDelete_refused_specV db pt sch tbls sdb h table w hname hbad
+
+/-- **C14.update_refused_plain_model**: likewise for UPDATE refused before its first row. -/
+theorem C14_update_refused_plain_model (db : Engine.DB) (pt sch : Levels) (tbls : List (Bytes × Levels))
+    (sdb : Spec.SDB) (h : AbsV db.store pt sch tbls sdb) (table : Bytes)
+    (sets : List (Bytes × Sql.VExpr)) (w : Option Sql.Cond) (hbad : UpdRefusal sdb table sets w) :
+    Spec.specUpdate sdb table sets w = none ∧
+    ∃ e db', Engine.evalUpdate db table sets w = .err e db' ∧ UpdErr e ∧
+      db'.wal = db.wal ∧ Same db.store db'.store ∧ AbsV db'.store pt sch tbls sdb :=
+  evalUpdate_refused_specV db pt sch tbls sdb h table sets w hbad
+
+/-- **C14.update_kth_row_plain_model** (the known finding for UPDATE, stated exactly): when the k-th
+selected row (k >= 2) is the one that cannot be rewritten, the plain model refuses the statement, the
+engine model returns a row error and logs nothing - but the store abstracts to the plain database
+with the first k-1 selected rows REWRITTEN, one of the states `Spec.prefixStates` lists
+(`kth_state_in_prefixStates`), not to the database before the statement. -/
+theorem C14_update_kth_row_plain_model (db : Engine.DB) (pt sch : Levels) (tbls : List (Bytes × Levels))
+    (sdb : Spec.SDB) (h : Abs db.store pt sch tbls sdb) (table : Bytes)
+    (sets : List (Bytes × Sql.VExpr)) (w : Option Sql.Cond)
+    (hnocol : ∀ p ∈ sets, ∀ c, p.2 ≠ .col c)
+    (hvalid : ∀ p ∈ sets, ∀ l, p.2 = .lit l → ValidVal (Engine.litToVal l))
+    (st : Spec.STable) (sel : List Bool) (pre : List (List Val)) (bad : List Val) (post : List (List Val))
+    (hfind : Spec.findTable sdb table = some st) (hsel : Spec.selects st w = some sel)
+    (hsplit : selVals st sel = pre ++ bad :: post)
+    (hpre : ∀ v ∈ pre, specAssign st.cols sets v ≠ none) (hbad : specAssign st.cols sets bad = none) :
+    Spec.specUpdate sdb table sets w = none ∧
+    ∃ e db' t', Engine.evalUpdate db table sets w = .err (.store e) db' ∧
+      (e = .typeMismatch ∨ e = .intOutOfRange ∨ e = .rowTooLarge) ∧ db'.wal = db.wal ∧
+      Abs db'.store pt sch (setTable tbls table t')
+        (sdb.map (updRows table fun rs => rewriteFirst st.cols sets pre.length (rs.zip sel))) :=
+  evalUpdate_kth_refused_spec db pt sch tbls sdb h table sets w hnocol hvalid st sel pre bad post hfind hsel hsplit hpre hbad
 
 end Mkdb.Store
